@@ -480,11 +480,9 @@ class BaseDAG(Generic[P, RVDAG]):
         exclude_nodes: Optional[Sequence[Alias]],
         root_nodes: Optional[Sequence[Alias]],
     ) -> DiGraphEx:
-        # 1. if target_nodes is not provided run all setup ExecNodes
+        # 1. if target_nodes is not provided run all setup ExecNodes (of the selection left by exclude_nodes and root_nodes)
         if target_nodes is not None:
             target_nodes = self.get_multiple_nodes_aliases(target_nodes)
-        else:
-            target_nodes = self.graph_ids.setup_nodes
 
         # 2. the leaves_ids that the user wants to execute
         if exclude_nodes is not None:
